@@ -548,3 +548,131 @@ class CoroDriver:
              and co.stay == ctx.frame_no else -1,
              co.started_ever) for co in ctx.cos))
         return (impl, model, len(ctx.cos) if not self.fixed else 0)
+
+
+# ---------------------------------------------------------------------------
+# E3 family "wait-orders": many sleepers, every order of deadlines
+# ---------------------------------------------------------------------------
+def wait_order_cases(menu, max_n, perm_n=(), modes=('together', 'staggered')):
+    """Every tuple of first waits of length <= max_n over ``menu`` (second
+    wait fixed by position parity), every permutation of ``menu`` prefixes
+    for the lengths in ``perm_n``; coroutines started together before the
+    first frame, or one per frame."""
+    import itertools
+    out = []
+    for mode in modes:
+        for n in range(1, max_n + 1):
+            for waits in itertools.product(menu, repeat=n):
+                out.append((mode, waits))
+        for n in perm_n:
+            for waits in itertools.permutations(range(1, n + 1)):
+                out.append((mode, waits))
+    seen = set()
+    uniq = []
+    for c in out:
+        if c not in seen:
+            seen.add(c)
+            uniq.append(c)
+    return uniq
+
+
+def run_wait_order_case(case):
+    """Coroutine i: ``yield w_i`` (w <= 0: a plain step), then ``yield 1`` if
+    i is odd, then return i.  process(1) until everything ended.  Judged per
+    frame on an independent clock per coroutine: state(), the frame of
+    every resume, the promise value, release."""
+    mode, waits = case
+    n = len(waits)
+    proc = desper.CoroutineProcessor()
+    log = {i: [] for i in range(n)}          # frames in which i executed
+    frame = [0]
+
+    def body(i, w):
+        log[i].append(frame[0])
+        yield w
+        log[i].append(frame[0])
+        if i % 2:
+            yield 1
+            log[i].append(frame[0])
+        return i
+
+    gens = [body(i, w) for i, w in enumerate(waits)]
+    promises = [None] * n
+    start_frame = {}
+    # model: frames at which coroutine i must execute
+    want = {}
+    for i, w in enumerate(waits):
+        s = 1 if mode == 'together' else i + 1      # first executing frame
+        start_frame[i] = s
+        second = s + (w if w > 0 else 1)
+        frames = [s, second]
+        if i % 2:
+            frames.append(second + 1)
+        want[i] = frames
+    last = max(f[-1] for f in want.values())
+    hits = collections.Counter()
+    calls = 0
+    if mode == 'together':
+        for i, g in enumerate(gens):
+            promises[i] = proc.start(g)
+    for f in range(1, last + 2):
+        if mode == 'staggered' and f - 1 < n:
+            promises[f - 1] = proc.start(gens[f - 1])
+        frame[0] = f
+        proc.process(1)
+        calls += 1
+        sleeping = 0
+        for i, g in enumerate(gens):
+            if promises[i] is None:
+                continue
+            done = [x for x in want[i] if x <= f]
+            if log[i] != done:
+                raise Violation(
+                    'woken_on_time',
+                    f'{case}: after frame {f} coroutine {i} (first wait '
+                    f'{waits[i]}) executed in frames {log[i]}, expected '
+                    f'{done}', early=len(log[i]) > len(done),
+                    sleepers=min(n, 6))
+            st = proc.state(g)
+            if f >= want[i][-1]:
+                exp = CoroutineState.TERMINATED
+            else:
+                nxt = min(x for x in want[i] if x > f)
+                exp = (CoroutineState.ACTIVE if nxt == f + 1 and
+                       _plain(i, waits, want, f) else CoroutineState.PAUSED)
+                sleeping += exp == CoroutineState.PAUSED
+            if st != exp:
+                raise Violation(
+                    'state_matches_model',
+                    f'{case}: after frame {f} state of coroutine {i} is '
+                    f'{st}, expected {exp}', sleepers=min(n, 6))
+            calls += 1
+            if f >= want[i][-1]:
+                if promises[i].value != i:
+                    raise Violation(
+                        'promise_value',
+                        f'{case}: coroutine {i} ended in frame {f}, promise '
+                        f'value {promises[i].value!r}')
+                if reachable(proc, g):
+                    raise Violation(
+                        'released',
+                        f'{case}: coroutine {i} ended in frame {f} and is '
+                        f'still reachable from the processor')
+        if sleeping >= 3:
+            hits['three_or_more_sleepers'] += 1
+        if sleeping >= 5:
+            hits['five_or_more_sleepers'] += 1
+    if any(w <= 0 for w in waits):
+        hits['non_positive_wait'] += 1
+    if list(waits) != sorted(waits):
+        hits['deadlines_requested_out_of_order'] += 1
+    return {'calls': calls, 'hits': dict(hits), 'key': repr(case)}
+
+
+def _plain(i, waits, want, f):
+    """True when coroutine i's pending yield (the one it sits on after frame
+    f) was a plain step, not a positive wait."""
+    k = len([x for x in want[i] if x <= f])     # yields taken so far
+    if k == 1:
+        return not waits[i] > 0
+    return False        # the second yield, if any, is ``yield 1``
